@@ -210,7 +210,11 @@ func check(c Case) *vcore.Violation {
 			}
 		}
 		// re-encoding: the IE must read, through the table, as the same flag set
-		out, err := r.IE().ReportingTriggers()
+		// the IE is kept while another one is built from other flags (a message carries several): it must not change
+		first := r.IE()
+		other := report.ReportingTrigger{Flags: ^r.Flags & 0xffffff}
+		_ = other.IE()
+		out, err := first.ReportingTriggers()
 		if err != nil {
 			return vcore.Violatef("rpt-ie", "IE(): %v", err)
 		}
@@ -226,7 +230,10 @@ func check(c Case) *vcore.Violation {
 		}
 		// Flags is the word the control plane sees through IE(); the word
 		// layout itself is internal, so it is checked through accessors + IE()
-		out, err := u.IE().UsageReportTrigger()
+		first := u.IE()
+		other := report.UsageReportTrigger{Flags: ^u.Flags & 0xffffff}
+		_ = other.IE()
+		out, err := first.UsageReportTrigger()
 		if err != nil {
 			return vcore.Violatef("usar-ie", "IE(): %v", err)
 		}
